@@ -261,7 +261,7 @@ Proof.
   destruct (at_eof_false l Hne) as [r Hr].
   pose proof (lx_read_while_nonempty _ _ _ _ _ _ W1 Hr Hd) as Nip.
   apply (lx_read_while_adv _ _ _ _ isDigit_LF) in W1.
-  destruct (ch 46 l1 && isDigit (peek l1)) eqn:F.
+  destruct (ch 46 l1) eqn:F.
   - assert (Hc : cur l1 <> 0%N) by (unfold ch in F; lia).
     assert (C46 : cur l1 = 46%N) by (unfold ch in F; lia).
     pose proof (read_char_cur l1 Hc) as A2. rewrite C46 in A2.
